@@ -74,10 +74,11 @@ func stmtInline(p *packages.Package, file *ast.File, call *ast.CallExpr, cfd *as
 		return nil, fmt.Errorf("variadic helper")
 	}
 	bad := ""
+	usesDefer := false
 	ast.Inspect(cfd.Body, func(n ast.Node) bool {
 		switch x := n.(type) {
 		case *ast.DeferStmt:
-			bad = "helper uses defer"
+			usesDefer = true
 		case *ast.CallExpr:
 			if id, ok := x.Fun.(*ast.Ident); ok && id.Name == "recover" {
 				bad = "helper uses recover"
@@ -209,6 +210,24 @@ func stmtInline(p *packages.Package, file *ast.File, call *ast.CallExpr, cfd *as
 	if idx < 0 {
 		return nil, fmt.Errorf("statement not found in its block")
 	}
+	if usesDefer {
+		// the helper's deferred calls run when the helper returns; inlined they run when the CALLER returns. That is the
+		// same moment only for `return H(...)` as the last statement of the caller's body.
+		tail := form == fReturn && idx == len(list)-1 && stmtIdx+2 < len(path)
+		if tail {
+			switch fnNode := path[stmtIdx+2].(type) {
+			case *ast.FuncDecl:
+				tail = fnNode.Body == path[stmtIdx+1]
+			case *ast.FuncLit:
+				tail = fnNode.Body == path[stmtIdx+1]
+			default:
+				tail = false
+			}
+		}
+		if !tail {
+			return nil, fmt.Errorf("helper uses defer")
+		}
+	}
 
 	// ---- fold a following `if <err> != nil { BODY }` into an assignment form
 	nres := sig.Results().Len()
@@ -317,6 +336,11 @@ func stmtInline(p *packages.Package, file *ast.File, call *ast.CallExpr, cfd *as
 			if arg != nil && !simple(arg) {
 				paramDecls = append(paramDecls, "_ = "+argText)
 			}
+			return
+		}
+		if lit, isLit := ast.Unparen(arg).(*ast.FuncLit); arg != nil && isLit && !assigned[v] && onlyCalled(info, cfd.Body, v) {
+			_ = lit
+			repl[v] = "(" + argText + ")"
 			return
 		}
 		if arg != nil && simple(arg) && !assigned[v] {
@@ -1198,4 +1222,23 @@ func firstIdent(e ast.Expr) *ast.Ident {
 			return nil
 		}
 	}
+}
+
+// onlyCalled: every use of v in body is the function operand of a call, and there are at most two of them.
+func onlyCalled(info *types.Info, body ast.Node, v *types.Var) bool {
+	calls, uses := 0, 0
+	ast.Inspect(body, func(n ast.Node) bool {
+		switch x := n.(type) {
+		case *ast.CallExpr:
+			if id, ok := ast.Unparen(x.Fun).(*ast.Ident); ok && info.Uses[id] == types.Object(v) {
+				calls++
+			}
+		case *ast.Ident:
+			if info.Uses[x] == types.Object(v) {
+				uses++
+			}
+		}
+		return true
+	})
+	return uses == calls && calls >= 1 && calls <= 2
 }
